@@ -54,7 +54,7 @@ BAD = {"syn": "a = ;", "eof": "a = (1 +", "undef": "zz9 = nosuch + 1;", "str": '
        "deepnest": "for i in 1 to 2 loop while a < 0 loop if a > 0 then a = ; end if; end loop; end loop;", "emptyw": "while a < 0 loop end loop;"}
 EXPRS = {"add": "a + 1", "str": 'b + "?"', "div": "1 / (a - a)", "tab": "tab(2, a)", "tup": "tup(a, b)", "const": "40 + 2",
          # plain constants: their value lives in the expression node, the pointer handed out must not
-         "lit": '"a constant string of some length"', "int": "42", "nul": "null"}
+         "lit": '"a constant string of some length"', "int": "42", "nul": "null", "dec": "2.5", "boo": "true", "big": "9223372036854775807"}
 BADEXPR = {"syn": "a +", "undef": "nosuch * 2"}
 
 
@@ -688,7 +688,7 @@ def mk_pexpr(name, bad):
         ops.append("k.pexpr 0 0 %s" % hx(EXPRS[name] + ";"))
         ops.append("k.etype 0 0")
         m.exp = (name, 0)
-        et = {"add": (2, 0), "str": (4, 0), "div": (2, 0), "tab": (2, 1), "tup": (7, 0), "const": (2, 0), "lit": (4, 0), "int": (2, 0), "nul": (0, 0)}[name]
+        et = {"add": (2, 0), "str": (4, 0), "div": (2, 0), "tab": (2, 1), "tup": (7, 0), "const": (2, 0), "lit": (4, 0), "int": (2, 0), "nul": (0, 0), "dec": (3, 0), "boo": (1, 0), "big": (2, 0)}[name]
         return ops, pexp + [None] * (len(ops) - len(pre) - 2) + [("ptr", 1), ("etype", et)]
     return fn
 
@@ -723,6 +723,12 @@ def op_eval(m):
         v = ("s", b"a constant string of some length")
     elif name == "nul":
         v = ("N", "u")
+    elif name == "dec":
+        v = ("d", 2.5)
+    elif name == "boo":
+        v = ("b", True)
+    elif name == "big":
+        v = ("i", 9223372036854775807)
     else:
         v = ("i", 42)
     if v is None:
@@ -820,6 +826,12 @@ def sequences(tier):
     else:
         for seq in itertools.product(core, repeat=3):
             yield list(seq)
+        # the life of an evaluated value after its expression is freed, for every expression kind, followed by every core operation
+        for nm in EXPRS:
+            yield ["pexpr-%s" % nm, "eval", "freeexpr"]
+            for nxt in core:
+                yield ["pexpr-%s" % nm, "eval", "freeexpr", nxt]
+                yield ["pexpr-%s" % nm, "eval", nxt, "freeexpr"]
 
 
 def leak_sweep(tier):
@@ -832,6 +844,19 @@ def leak_sweep(tier):
     items += c11.DIRECT_R
     if tier != "thorough":
         items = items[::3]
+    # ill-typed operands of every operator, on either side (the parser gives up in the middle of an expression it has partly built)
+    from . import c01
+    atoms = ["1", "2.5", '"s"', "true", "a", "s", 'raw("x")', "t", "r", "(a + 0.5)", "null"]
+    for o in c01.BINOPS:
+        for x in atoms:
+            for y in atoms:
+                e = "%s %s %s" % (x, o, y)
+                items.append("zq = %s;" % e)
+                items.append("%s;" % e)
+    for o in c01.UNOPS:
+        for x in atoms:
+            items.append("zq = %s %s;" % (o, x))
+            items.append("%s %s;" % (o, x))
     pre = c11.PREFIXES["vars+funs"]
     for r in items:
         for pos in ((0, 1) if tier == "thorough" else (1,)):
